@@ -90,7 +90,7 @@ func (prop) Decode(raw []byte) (any, error) {
 	if s.LB < 0 || s.LB > 6 || (s.LB != 0 && s.Kind == mgeom.GC) {
 		return nil, fmt.Errorf("bad layout of receiver B")
 	}
-	if s.L < 1 || s.L > 6 {
+	if s.L < 0 || s.L > 6 {
 		return nil, fmt.Errorf("bad layout")
 	}
 	if len(s.Ops) > 80 {
@@ -161,7 +161,7 @@ func validPart(g *mgeom.Geom, depth int) error {
 	if mgeom.Level(g.T) < 0 && g.T != mgeom.GC {
 		return fmt.Errorf("bad type %q", g.T)
 	}
-	if g.T != mgeom.GC && (g.L < 1 || g.L > 6) {
+	if g.T != mgeom.GC && (g.L < 0 || g.L > 6 || (g.L == 0 && g.NumCoords() > 0)) {
 		return fmt.Errorf("bad layout")
 	}
 	if g.T == mgeom.GC && (g.L < 0 || g.L > 6) {
@@ -184,6 +184,9 @@ func validPart(g *mgeom.Geom, depth int) error {
 func (prop) Generate(r *prng.Rand, phase string) any {
 	kinds := []string{mgeom.Pg, mgeom.MPt, mgeom.MLS, mgeom.MPg, mgeom.MPg, mgeom.GC}
 	s := &Scenario{Kind: kinds[r.Intn(len(kinds))], L: []int{1, 2, 3, 4, 1, 2, 3, 4, 5, 6}[r.Intn(10)]}
+	if s.Kind != mgeom.GC && r.Chance(0.04) {
+		s.L = 0 // a receiver created without a layout: only parts without a layout (empty ones) match
+	}
 	cfg := mgeom.SwarmCfg(r, []int{1, 2, 3, 4, 5, 6})
 	cfg.PEmpty = []float64{0, 0.15, 0.4, 0.7}[r.Intn(4)]
 	cfg.MaxDepth = r.Range(0, 2)
@@ -198,13 +201,16 @@ func (prop) Generate(r *prng.Rand, phase string) any {
 	pWrong := []float64{0, 0.1, 0.3}[r.Intn(3)]
 	nops := r.Range(1, []int{4, 8, 16, 40}[r.Intn(4)])
 	part := func(l int) *mgeom.Geom {
+		if l == 0 && s.Kind != mgeom.GC {
+			return (&mgeom.Geom{T: partType[s.Kind], L: 0}).Norm()
+		}
 		if s.Kind == mgeom.GC {
 			t := mgeom.AllTypes[r.Intn(len(mgeom.AllTypes))]
 			return cfg.Gen(r, t, l, 1)
 		}
 		return cfg.Gen(r, partType[s.Kind], l, 0)
 	}
-	persistent := s.Kind == mgeom.MPg && r.Chance(0.5)
+	persistent := s.Kind == mgeom.MPg && s.L != 0 && r.Chance(0.5)
 	cur := [2]int{s.L, s.L} // the layout each receiver has when the next operation is generated
 	if !persistent && s.Kind != mgeom.GC && r.Chance(0.25) {
 		s.LB = 1 + r.Intn(6)
